@@ -576,7 +576,45 @@ def facades(ctx):  # noqa: C901
                 ctx.violation("facade-binding-ignored:multi-predicate", f"{name}: dump({value!r}) = {d!r}, load({outer!r}) = {l!r}; expected {outer!r} / {value!r}", {"facade": name, "class": tp.__name__})
 
 
-DIRECTED = {"integration-markers": integration, "multi-predicate-facades": facades, "operands-survive-derivation": operands_survive}
+def prefixes_survive_use(ctx):
+    """A pattern object that has already been USED as a predicate (a checker built from it, combined with |, &, ~) and is EXTENDED afterwards
+    - book = P[Book]; loader(book, ...); loader(book.price, ...) - yields the chain written in one go (seeded change: the built checker was
+    memoised on the pattern object and copied into every derived pattern)."""
+    rng = ctx.rng("prefixes")
+    locs = all_locs()
+    stks = stacks(locs, rng, 250, 120)
+    prefixes = [("P[A]", lambda: P[A]), ("P.a", lambda: P.a), ("P[A].b", lambda: P[A].b), ("P[A, int]", lambda: P[A, int]), ("P['a|b']", lambda: P["a|b"]), ("P[A1]", lambda: P[A1])]
+    extensions = [(".a", lambda p: p.a), ("['b']", lambda p: p["b"]), ("[int]", lambda p: p[int]), ("+ P.a", lambda p: p + P.a), ("+ P[A1].b", lambda p: p + P[A1].b),
+                  (".generic_arg(0, int)", lambda p: p.generic_arg(0, int)), (".a.b", lambda p: p.a.b)]
+    uses = [("create_loc_stack_checker", lambda p: create_loc_stack_checker(p)), ("| P[int]", lambda p: p | P[int]), ("~", lambda p: ~p), ("& 'a'", lambda p: create_loc_stack_checker(p) & create_loc_stack_checker("a")),
+            ("check", lambda p: create_loc_stack_checker(p).check_loc_stack(None, LocStack(*stks[0])))]
+    for pl, mk in prefixes:
+        for el, ext in extensions:
+            try:
+                want_checker = create_loc_stack_checker(ext(mk()))
+            except Exception:  # noqa: BLE001
+                ctx.count("derived_expression_not_buildable")
+                continue
+            want = [want_checker.check_loc_stack(None, LocStack(*st)) for st in stks]
+            for ul, use in uses:
+                p = mk()
+                use(p)
+                got_checker = create_loc_stack_checker(ext(p))
+                got = [got_checker.check_loc_stack(None, LocStack(*st)) for st in stks]
+                again = [create_loc_stack_checker(p).check_loc_stack(None, LocStack(*st)) for st in stks]
+                base = [create_loc_stack_checker(mk()).check_loc_stack(None, LocStack(*st)) for st in stks]
+                ctx.evaluated(("prefix-survives-use", pl, el, ul), nontrivial=True)
+                ctx.count("operand_survival_checks")
+                ctx.count("evaluations", 3 * len(stks))
+                if got != want:
+                    i = next(i for i, (a, b) in enumerate(zip(got, want)) if a != b)
+                    ctx.violation("pattern-extended-after-use-differs", f"p = {pl}; {ul}(p); p{el} on {_show_stack(stks[i])}: adaptix {got[i]}, the chain written in one go {want[i]}",
+                                  {"prefix": pl, "extension": el, "use": ul})
+                if again != base:
+                    ctx.violation("pattern-changed-by-use", f"p = {pl}; {ul}(p); p{el}: p itself answers differently afterwards", {"prefix": pl, "extension": el, "use": ul})
+
+
+DIRECTED = {"integration-markers": integration, "multi-predicate-facades": facades, "operands-survive-derivation": operands_survive, "prefixes-survive-use": prefixes_survive_use}
 
 
 def run_case(ctx, rng, idx):
